@@ -2248,3 +2248,259 @@ func ruleFilterRoot(prog *Program, rep *Report, inScope func(fn string) bool) {
 		rep.Errorf("B-filterroot found %d rooted evaluations (floor 8): anchors did not resolve", rooted)
 	}
 }
+
+// ---------------------------------------------------------------- M-forward
+
+// matchContextForward: plan functions receive the evaluation context as their two
+// leading parameters (root map[string]any, at any) and hand it on to evalArg,
+// evalValue and nested Fn.Eval. `$` paths resolve against root and `@` paths
+// against at, so a call that passes root in the at position (or anything but its
+// own root in the root position) silently evaluates `@` against the wrong value.
+// The one function without an `at` of its own (Plan.Execute, where at starts as
+// root) is not matched because it has no such parameter pair.
+func matchContextForward(files []*ast.File, info *types.Info) (sites []synSite, examined int) {
+	isRootT := func(t types.Type) bool {
+		m, ok := t.Underlying().(*types.Map)
+		if !ok {
+			return false
+		}
+		k, ok := m.Key().Underlying().(*types.Basic)
+		_, isAny := m.Elem().Underlying().(*types.Interface)
+		return ok && k.Kind() == types.String && isAny
+	}
+	isAnyT := func(t types.Type) bool {
+		i, ok := t.Underlying().(*types.Interface)
+		return ok && i.NumMethods() == 0
+	}
+	for _, f := range files {
+		for _, d := range f.Decls {
+			fd, ok := d.(*ast.FuncDecl)
+			if !ok || fd.Body == nil || fd.Type.Params == nil {
+				continue
+			}
+			var params []types.Object
+			for _, fl := range fd.Type.Params.List {
+				for _, n := range fl.Names {
+					params = append(params, info.Defs[n])
+				}
+			}
+			if len(params) < 2 || params[0] == nil || params[1] == nil || !isRootT(params[0].Type()) || !isAnyT(params[1].Type()) {
+				continue
+			}
+			rootP, atP := params[0], params[1]
+			ast.Inspect(fd.Body, func(n ast.Node) bool {
+				call, ok := n.(*ast.CallExpr)
+				if !ok || len(call.Args) < 2 {
+					return true
+				}
+				sig, ok := info.TypeOf(call.Fun).(*types.Signature)
+				if !ok || sig.Params().Len() < 2 || !isRootT(sig.Params().At(0).Type()) || !isAnyT(sig.Params().At(1).Type()) {
+					return true
+				}
+				examined++
+				a0, a1 := useObj(info, call.Args[0]), useObj(info, call.Args[1])
+				fn := enclosingFuncName(f, call.Pos())
+				switch {
+				case a0 != rootP:
+					sites = append(sites, synSite{pos: call.Pos(), file: f, key: fn + ":root-not-forwarded",
+						msg: fmt.Sprintf("%s calls %s with %s in the root position instead of its own root parameter: `$` paths below resolve against another document", fn, types.ExprString(call.Fun), types.ExprString(call.Args[0]))})
+				case a1 == rootP && atP != rootP:
+					sites = append(sites, synSite{pos: call.Pos(), file: f, key: fn + ":root-passed-as-at",
+						msg: fmt.Sprintf("%s calls %s with root in the position of the local value (at): `@` paths below resolve against the document root instead of the current value", fn, types.ExprString(call.Fun))})
+				}
+				return true
+			})
+		}
+	}
+	return
+}
+
+const fixtureContextForward = `package fixture
+
+func evalArg(root map[string]any, at any, arg any) any { return arg }
+
+func good(root map[string]any, at any, args ...any) any {
+	v := evalArg(root, at, args[0])
+	return evalArg(root, v, args[1]) // a new local value is fine
+}
+
+func bad(root map[string]any, at any, args ...any) any {
+	return evalArg(root, root, args[0])
+}
+
+func bad2(root map[string]any, at any, args ...any) any {
+	other := map[string]any{}
+	return evalArg(other, at, args[0])
+}
+`
+
+func ruleContextForward(prog *Program, rep *Report) {
+	rep.Rules = append(rep.Rules, "M-forward: every function of package asm that receives the evaluation context (root map[string]any, at any) hands it on unchanged in position: calls whose callee takes the same leading pair get the function's own root first and never root in the at position")
+	runSynRule(prog, rep, "M-forward", []string{"asm"}, matchContextForward, fixtureContextForward, 2, 60)
+}
+
+// ---------------------------------------------------------------- F-order
+
+// matchOperandOrder: a function comparing two operands of the same type (v0, v1 /
+// fingerprint, target) recurses on their parts. The roles are not symmetric
+// (Match: every member of the fingerprint must be in the target; diff reports
+// paths of the first operand), so a recursive call must pass something derived
+// from the first parameter first and from the second parameter second. Derivation
+// is followed through assignments, comma-ok forms, type-switch bindings and
+// range statements. Only an exact swap (first argument derived from the second
+// parameter only, and vice versa) is reported.
+func matchOperandOrder(files []*ast.File, info *types.Info) (sites []synSite, examined int) {
+	for _, f := range files {
+		for _, d := range f.Decls {
+			fd, ok := d.(*ast.FuncDecl)
+			if !ok || fd.Body == nil || fd.Type.Params == nil {
+				continue
+			}
+			var params []types.Object
+			for _, fl := range fd.Type.Params.List {
+				for _, n := range fl.Names {
+					params = append(params, info.Defs[n])
+				}
+			}
+			if len(params) < 2 || params[0] == nil || params[1] == nil || !types.Identical(params[0].Type(), params[1].Type()) {
+				continue
+			}
+			self := info.Defs[fd.Name]
+			derive := map[types.Object]uint8{params[0]: 1, params[1]: 2}
+			exprDer := func(e ast.Expr) uint8 {
+				var m uint8
+				ast.Inspect(e, func(n ast.Node) bool {
+					if id, ok := n.(*ast.Ident); ok {
+						m |= derive[info.Uses[id]]
+					}
+					return true
+				})
+				return m
+			}
+			for changed := true; changed; {
+				changed = false
+				mark := func(o types.Object, m uint8) {
+					if o != nil && m != 0 && derive[o]|m != derive[o] {
+						derive[o] |= m
+						changed = true
+					}
+				}
+				ast.Inspect(fd.Body, func(n ast.Node) bool {
+					switch s := n.(type) {
+					case *ast.AssignStmt:
+						if len(s.Rhs) == 1 {
+							m := exprDer(s.Rhs[0])
+							for i, l := range s.Lhs {
+								if i > 0 && len(s.Lhs) == 2 {
+									break // comma-ok flag
+								}
+								if id, ok := l.(*ast.Ident); ok {
+									o := info.Defs[id]
+									if o == nil {
+										o = info.Uses[id]
+									}
+									mark(o, m)
+								}
+							}
+						} else if len(s.Lhs) == len(s.Rhs) {
+							for i, l := range s.Lhs {
+								if id, ok := l.(*ast.Ident); ok {
+									o := info.Defs[id]
+									if o == nil {
+										o = info.Uses[id]
+									}
+									mark(o, exprDer(s.Rhs[i]))
+								}
+							}
+						}
+					case *ast.TypeSwitchStmt:
+						var subj ast.Expr
+						if a, ok := s.Assign.(*ast.AssignStmt); ok && len(a.Rhs) == 1 {
+							if ta, ok := ast.Unparen(a.Rhs[0]).(*ast.TypeAssertExpr); ok {
+								subj = ta.X
+							}
+						}
+						if subj != nil {
+							m := exprDer(subj)
+							for _, cl := range s.Body.List {
+								mark(info.Implicits[cl], m)
+							}
+						}
+					case *ast.RangeStmt:
+						m := exprDer(s.X)
+						for _, e := range []ast.Expr{s.Key, s.Value} {
+							if id, ok := e.(*ast.Ident); ok {
+								mark(info.Defs[id], m)
+							}
+						}
+					}
+					return true
+				})
+			}
+			ast.Inspect(fd.Body, func(n ast.Node) bool {
+				call, ok := n.(*ast.CallExpr)
+				if !ok || len(call.Args) < 2 {
+					return true
+				}
+				var callee types.Object
+				switch fn := ast.Unparen(call.Fun).(type) {
+				case *ast.Ident:
+					callee = info.Uses[fn]
+				case *ast.SelectorExpr:
+					callee = info.Uses[fn.Sel]
+				}
+				if callee == nil || callee != self {
+					return true
+				}
+				examined++
+				// range keys index both operands (t1[k]): the container, not the key, tells the side
+				side := func(e ast.Expr) uint8 {
+					if ix, ok := ast.Unparen(e).(*ast.IndexExpr); ok {
+						return exprDer(ix.X)
+					}
+					return exprDer(e)
+				}
+				d0, d1 := side(call.Args[0]), side(call.Args[1])
+				if d0 == 2 && d1 == 1 {
+					name := enclosingFuncName(f, call.Pos())
+					sites = append(sites, synSite{pos: call.Pos(), file: f, key: name + ":operands-swapped",
+						msg: fmt.Sprintf("%s calls itself with its operands exchanged (%s derives from %s, %s from %s): the roles of the two operands are not symmetric", name, types.ExprString(call.Args[0]), params[1].Name(), types.ExprString(call.Args[1]), params[0].Name())})
+				}
+				return true
+			})
+		}
+	}
+	return
+}
+
+const fixtureOperandOrder = `package fixture
+
+type simp interface{ Simplify() any }
+
+func match(fp, target any) bool {
+	switch t0 := fp.(type) {
+	case []any:
+		t1, ok := target.([]any)
+		if !ok {
+			return false
+		}
+		for i, v := range t0 {
+			if !match(v, t1[i]) {
+				return false
+			}
+		}
+		return true
+	}
+	if s0, _ := fp.(simp); s0 != nil {
+		if s1, _ := target.(simp); s1 != nil {
+			return match(s1.Simplify(), s0.Simplify())
+		}
+	}
+	return fp == target
+}
+`
+
+func ruleOperandOrder(prog *Program, rep *Report, rels ...string) {
+	rep.Rules = append(rep.Rules, "F-order: a function with two like-typed leading operands that calls itself passes a part of its first operand first and a part of its second operand second (derivation through assignments, comma-ok, type-switch bindings, range): Match and diff are not symmetric in their operands")
+	runSynRule(prog, rep, "F-order", rels, matchOperandOrder, fixtureOperandOrder, 1, 6)
+}
